@@ -19,6 +19,10 @@ def run(ctx):
         via_cli = (k % 2 == 1)
         items.append(("art-extract", dict(depth=e["depth"], batch=e["batch"], cli=cli if via_cli else "", dir=ctx.scratch, prev=os.path.join(REPO, "formal-verification", "FormalVerification.lean"),
                                           keep=keep if (e["depth"], e["batch"], via_cli) == (30, 4, False) or (e["depth"], e["batch"]) == (30, 4) and not os.path.exists(keep) else ""), e["procs"]))
+    # repetition: Go randomises map iteration and goroutine scheduling per run, so the same dimensions are also extracted many times
+    # within one process (cheap), every repetition being one more Extract event of the trace
+    for (d, b), n in (((3, 2), 40), ((30, 4), 12)) if ctx.quick else (((3, 2), 200), ((30, 4), 60), ((2, 1), 100), ((10, 4), 40)):
+        items.append(("art-extract", dict(depth=d, batch=b, cli="", dir=ctx.scratch, prev="", keep="", reps=n - 1), 4))
     recs = artlib.execute(ctx, items, nproc=8)
     com = ctx.run_vh(["art-committed"], dict(repo=REPO))
     if len(com) != 1:
@@ -48,7 +52,7 @@ def run(ctx):
     ctx.samples += [dict(name=n, digest=d) for n, d in list(com[0]["defs"].items())[:3]]
     ctx.cov["programs"] = programs
     ctx.cov["disagreements_checked"] = programs * len(items)
-    ctx.cov["extractions"] = len(items)
+    ctx.cov["extractions"] = len([r for r in recs if r.get("event") == "extract"])
     ctx.cov["references_resolved"] = len(com[0]["refs"])
     ctx.evaluations = len(items)
     ctx.traces_validated = len(items)
